@@ -31,7 +31,7 @@ from .values import (
     SuperProxy,
 )
 
-_MISSING = object()
+from .values import MISSING as _MISSING
 
 
 class FCtx:
@@ -439,7 +439,8 @@ class Interp(AstMixin, Engine):
 
     @staticmethod
     def is_repo_func(fn: types.FunctionType) -> bool:
-        return getattr(fn, "__module__", "").startswith("pyoda_time")
+        m = getattr(fn, "__module__", "") or ""
+        return m.startswith("pyoda_time") or m.startswith("harness.")
 
     def all_concrete(self, vals: Any) -> bool:
         if isinstance(vals, (SInt, SBool, SOpaque, SObj, SList, SDict, Closure, BoundMethod, SStr, ExcValue, SuperProxy)):
@@ -616,10 +617,14 @@ class Interp(AstMixin, Engine):
 def _is_generator(node: ast.AST) -> bool:
     if isinstance(node, ast.Lambda):
         return False
-    for n in _walk_own(node):
-        if isinstance(n, (ast.Yield, ast.YieldFrom)):
-            return True
-    return False
+    r = getattr(node, "_is_gen", None)
+    if r is None:
+        r = any(isinstance(n, (ast.Yield, ast.YieldFrom)) for n in _walk_own(node))
+        try:
+            node._is_gen = r  # type: ignore[attr-defined]
+        except AttributeError:
+            pass
+    return r
 
 
 def _walk_own(node: ast.AST) -> Any:
